@@ -125,6 +125,9 @@ func genEnumValues(r *vh.RNG, n int, bitmask bool, taken map[uint64]bool) []ref.
 				return fmt.Sprintf("2**%d", e)
 			}
 		}
+		if r.Chance(1, 6) && v < 100000 {
+			return fmt.Sprintf("%0*d", 3+r.Intn(4), v) // decimal with leading zeros (still decimal: "010" is ten)
+		}
 		return fmt.Sprintf("%d", v)
 	}
 	for len(out) < n {
@@ -179,6 +182,9 @@ func genBatch(r *vh.RNG, prefix string, nDialects int) *xmlBatch {
 			file = fmt.Sprintf("%s_d%d.xml", prefix, d) // underscore is dropped from the package name
 		}
 		x := &ref.XDialect{File: file}
+		if r.Chance(2, 3) {
+			x.Noise = r.U64() | 1
+		}
 		closure[file] = map[string]bool{file: true}
 		// includes: earlier files (chains, diamonds, shared includes)
 		if d > 0 && r.Chance(2, 3) {
@@ -337,6 +343,38 @@ func genBatch(r *vh.RNG, prefix string, nDialects int) *xmlBatch {
 		b.Files[file] = x
 		files = append(files, file)
 		b.Tops = append(b.Tops, file)
+	}
+	// two include-only definitions whose file names differ only by an underscore / letter case (both normalise to the
+	// same package-name string) and one top-level dialect including both: they are different files and both count
+	if nDialects >= 4 {
+		mk := func(file string, tag string) *ref.XDialect {
+			x := &ref.XDialect{File: file}
+			var id uint32
+			for {
+				id = uint32(r.Intn(1 << 24))
+				if !ids[id] {
+					ids[id] = true
+					break
+				}
+			}
+			x.Messages = []ref.XMessage{{ID: id, Name: genMsgName(r, ns), Fields: []ref.XField{{Type: "uint16_t", Name: "v_" + tag}, {Type: "uint8_t", Name: "w_" + tag}}}}
+			return x
+		}
+		a := mk(prefix+"_sensor_pod.xml", "a")
+		c := mk(prefix+"_sensorpod.xml", "c")
+		b.Files[a.File], b.Files[c.File] = a, c
+		top := &ref.XDialect{File: prefix + "twin.xml", Version: "4", Includes: []string{a.File, c.File},
+			Messages: []ref.XMessage{{ID: func() uint32 {
+				for {
+					id := uint32(r.Intn(1 << 24))
+					if !ids[id] {
+						ids[id] = true
+						return id
+					}
+				}
+			}(), Name: genMsgName(r, ns), Fields: []ref.XField{{Type: "uint32_t", Name: "t"}}}}}
+		b.Files[top.File] = top
+		b.Tops = append(b.Tops, top.File)
 	}
 	return b
 }
